@@ -202,7 +202,17 @@ def playback_values(workdir, harness, feats, timeout):
 # result classification
 # --------------------------------------------------------------------------
 FAIL_OUTCOMES = ("assert_fail", "panic")
-TAG_RE = re.compile(r"^\[(C\d\d)\] ")
+MAX_REPLAYS = 3
+TAG_RE = re.compile(r"^\[(C\d\d)(\?)?\] ")
+
+
+def reproduces(native, pid, owns_panics):
+    """Does a native replay outcome confirm a violation of `pid`?"""
+    if native["outcome"] == "assert_fail":
+        return ("[%s]" % pid) in native.get("detail", "")
+    if native["outcome"] == "panic":
+        return owns_panics
+    return False
 
 
 def short_loc(c):
@@ -240,8 +250,21 @@ def classify_harness(res, pid, owns_panics):
         cat = c.get("category", "")
         st = c.get("status", "")
         desc = c.get("description", "")
+        m = TAG_RE.match(desc)
+        if m and m.group(1) != pid:
+            continue  # assertion / witness of another property: dead code in this instantiation
         if cat == "cover":
-            (out["covers_sat"] if st == "Satisfied" else out["covers_unsat"]).append(desc)
+            optional = bool(m and m.group(2))
+            if st == "Satisfied":
+                out["covers_sat"].append(desc)
+            elif not optional:
+                out["covers_unsat"].append(desc)
+            continue
+        if not owns_panics and not m and cat != "unwind" and "unwinding assertion" not in desc:
+            # a panic/overflow/pointer check of the code under test: an obligation only for the
+            # properties that own panic-freedom; elsewhere a failing one merely cuts the path
+            if st == "Failure":
+                out["foreign_fail"].append(c)
             continue
         out["n_checks"] += 1
         if st == "Success":
@@ -275,25 +298,34 @@ def classify_harness(res, pid, owns_panics):
 # main check
 # --------------------------------------------------------------------------
 def select(reg, pid, tier, kfs):
+    """main harnesses + [(finding, [witness harnesses])].  A 'w' harness asserts the property on the
+    input class of a finding: claimed by an open finding it is that finding's witness (expected to
+    fail with the listed signatures only), otherwise it is an ordinary quick harness."""
     pre = pid.lower() + "__"
-    main, wit = [], []
-    open_ids = {k["id"]: k for k in kfs if k["kind"] == "open" and k.get("property") == pid}
-    for e in reg:
-        n = e["name"]
-        if not n.startswith(pre):
-            continue
-        t = n.split("__")[1]
-        if t == "q" or (t == "t" and tier == "thorough"):
-            main.append(e)
-        elif t == "w":
-            wit.append(e)
+    mine = [e for e in reg if e["name"].startswith(pre)]
+    wit = [e for e in mine if e["name"].split("__")[1] == "w"]
+    claimed = set()
     witness = []
-    for kid, k in open_ids.items():
-        w = k.get("witness")
-        es = [e for e in wit if e["name"] == w]
-        if not es:
-            raise SystemExit("known finding %s: witness harness %s not in registry" % (kid, w))
-        witness.append((k, es[0]))
+    for k in kfs:
+        if k["kind"] != "open" or k.get("property") != pid:
+            continue
+        es = []
+        for pat in k.get("witness", "").split(","):
+            pat = pat.strip()
+            if not pat:
+                continue
+            got = [e for e in wit if (e["name"].startswith(pat[:-1]) if pat.endswith("*") else e["name"] == pat)]
+            if not got:
+                raise SystemExit("known finding %s: witness harness %s not in registry" % (k["id"], pat))
+            es += got
+        for e in es:
+            claimed.add(e["name"])
+        witness.append((k, es))
+    main = []
+    for e in mine:
+        t = e["name"].split("__")[1]
+        if t == "q" or (t == "t" and tier == "thorough") or (t == "w" and e["name"] not in claimed):
+            main.append(e)
     return main, witness
 
 
@@ -318,13 +350,13 @@ def do_check(pid, tier, seed, jobs, keep):
     if not main:
         log("no harness registered for", pid)
         return 2
-    names = [e["name"] for e in main] + [e["name"] for _, e in witness]
+    names = [e["name"] for e in main] + [e["name"] for _, es in witness for e in es]
     own = {e["name"]: e["owns_panics"] for e in reg}
     unwind = {e["name"]: e["unwind"] for e in reg}
     per_to = 1500 if tier == "quick" else 7200
     overall = 3000 if tier == "quick" else 6 * 3600
     log("[%s] tier=%s seed=%d harnesses=%d (+%d witness) jobs=%d features=%s" %
-        (pid, tier, seed, len(main), len(witness), jobs, ",".join(feats) or "-"))
+        (pid, tier, seed, len(main), sum(len(es) for _, es in witness), jobs, ",".join(feats) or "-"))
     rc, wall_k, data, logf, cmd = run_kani(workdir, names, feats, jobs, per_to, overall)
     inconclusive = list(problems)
     if data is None:
@@ -393,32 +425,35 @@ def do_check(pid, tier, seed, jobs, keep):
 
     # witnesses of open known findings
     kf_report = []
-    for k, e in witness:
-        h = e["name"]
-        r = results.get(h)
-        if r is None:
-            inconclusive.append("witness %s: no result" % h)
-            continue
-        cl = classify_harness(r, pid, True)
-        st = stats.get(h, {})
-        per_h[h] = {"status": r.get("status"), "witness_of": k["id"], "checks": cl["n_checks"],
-                    "symex_s": st.get("runtime_symex_s"), "solver_s": st.get("runtime_solver_s")}
-        if cl["unwind_fail"]:
-            inconclusive.append("witness %s: unwinding assertion failed" % h)
-            continue
-        bad = cl["own_fail"] + cl["panic_fail"]
+    for k, es in witness:
         pats = [p for p in k.get("sig", "").split(";") if p]
-        unlisted = [c for c in bad if not any(sig_matches(check_sig(c), p) for p in pats)]
-        listed = [c for c in bad if c not in unlisted]
-        if unlisted:
-            violations.append((h, unlisted))
-        if listed:
+        reproduced = []
+        for e in es:
+            h = e["name"]
+            r = results.get(h)
+            if r is None:
+                inconclusive.append("witness %s: no result" % h)
+                continue
+            cl = classify_harness(r, pid, own[h])
+            st = stats.get(h, {})
+            per_h[h] = {"status": r.get("status"), "witness_of": k["id"], "checks": cl["n_checks"],
+                        "symex_s": st.get("runtime_symex_s"), "solver_s": st.get("runtime_solver_s")}
+            if cl["unwind_fail"]:
+                inconclusive.append("witness %s: unwinding assertion failed" % h)
+                continue
+            bad = cl["own_fail"] + cl["panic_fail"]
+            unlisted = [c for c in bad if not any(sig_matches(check_sig(c), p) for p in pats)]
+            listed = [c for c in bad if c not in unlisted]
+            if unlisted:
+                violations.append((h, unlisted))
+            if listed:
+                reproduced.append({"witness": h, "failing_checks": sorted({"%s @ %s" % (c["description"], short_loc(c)) for c in listed})})
+        if reproduced:
             kf_lines.append("KNOWN-FINDING: property=%s id=%s %s" % (pid, k["id"], k.get("what", "")))
-            kf_report.append({"id": k["id"], "reproduced": True,
-                              "failing_checks": sorted({"%s @ %s" % (c["description"], short_loc(c)) for c in listed})})
-        elif not unlisted:
+            kf_report.append({"id": k["id"], "reproduced": True, "witnesses": reproduced})
+        else:
             kf_report.append({"id": k["id"], "reproduced": False})
-            log("note: known finding %s no longer reproduces (witness %s passed)" % (k["id"], h))
+            log("note: known finding %s did not reproduce in this run" % k["id"])
 
     # replay every violation natively before reporting it
     confirmed = []
@@ -426,12 +461,15 @@ def do_check(pid, tier, seed, jobs, keep):
     if violations:
         os.makedirs(REPLAYS, exist_ok=True)
         exe_rel = native_build(workdir, release=True)
-        for h, bad in violations:
+        for idx, (h, bad) in enumerate(violations):
             descs = sorted({"%s @ %s" % (c["description"], short_loc(c)) for c in bad})
             log("harness %s: solver reports %d failing check(s): %s" % (h, len(bad), "; ".join(descs)[:600]))
+            if len(confirmed) >= MAX_REPLAYS:
+                log("  (not replayed: %d violations already reproduced in this run)" % len(confirmed))
+                continue
             sets, err = playback_values(workdir, h, feats, per_to)
             rec = {"property": pid, "harness": h, "tier": tier, "seed": seed, "failing_checks": descs,
-                   "features": feats, "values": None}
+                   "features": feats, "values": None, "owns_panics": own[h]}
             path = os.path.join(REPLAYS, "%s-%s.json" % (pid, h))
             if not sets:
                 rec["playback_error"] = err
@@ -442,7 +480,7 @@ def do_check(pid, tier, seed, jobs, keep):
                     dev = native_replay(exe, h, vals)
                     rel = native_replay(exe_rel, h, vals)
                     outcomes.append((dev["outcome"], rel["outcome"]))
-                    if dev["outcome"] in FAIL_OUTCOMES or rel["outcome"] in FAIL_OUTCOMES:
+                    if reproduces(dev, pid, own[h]) or reproduces(rel, pid, own[h]):
                         if rec["values"] is None:
                             rec.update({"values": vals, "native_dev": dev, "native_release": rel})
                         rec.setdefault("reproduced", []).append(
@@ -531,7 +569,8 @@ def do_replay(path):
     rel = native_replay(exe_rel, rec["harness"], rec["values"])
     log("dev:     %s %s" % (dev["outcome"], dev.get("detail", "")))
     log("release: %s %s" % (rel["outcome"], rel.get("detail", "")))
-    if dev["outcome"] in FAIL_OUTCOMES or rel["outcome"] in FAIL_OUTCOMES:
+    owns = rec.get("owns_panics", True)
+    if reproduces(dev, pid, owns) or reproduces(rel, pid, owns):
         log("VIOLATION property=%s replay=%s" % (pid, path))
         return 1
     return 0
